@@ -42,7 +42,7 @@ theorem newEventKey_rune (c : Int) (h1 : 32 ≤ c) (h2 : c ≠ 127) : newEventKe
   simp [h]
 
 theorem parsers_cons (cfg : Cfg) : ∃ ps, parsers cfg = parseRune cfg.dec :: parseFunctionKey cfg.keys :: parseFocus :: ps ∧
-    ∀ p ∈ ps, p = parseXtermMouse cfg ∨ p = parseSgrMouse cfg ∨ p = parseClipboard := by
+    ∀ p ∈ ps, p = parseXtermMouse cfg ∨ p = parseSgrMouse cfg ∨ p = parseClipboardV cfg.clipFixed := by
   unfold parsers
   cases cfg.mouse <;> cases cfg.clipboard <;> simp
 
@@ -174,10 +174,21 @@ theorem parseClipboard_high (st : PState) (b0 : Nat) (t : Bytes) (hb : 128 ≤ b
   rw [if_pos h1]
   simp [clipPrefix, hasPrefix, h2]
 
+/-- both clipboard parsers (pinned and repaired) decide a buffer of at most seven bytes by comparing it with the OSC 52 prefix -/
+theorem parseClipboardV_short (fixed : Bool) (st : PState) (b : Bytes) (h : b.length ≤ 7) :
+    parseClipboardV fixed st b = if hasPrefix clipPrefix b then .part else .reject := by
+  cases fixed <;> simp [parseClipboardV, parseClipboard, parseClipboardF, h]
+
+theorem parseClipboardV_high (fixed : Bool) (st : PState) (b0 : Nat) (t : Bytes) (hb : 128 ≤ b0) (hl : t.length ≤ 3) :
+    parseClipboardV fixed st (b0 :: t) = .reject := by
+  rw [parseClipboardV_short fixed st _ (by simp; omega)]
+  have h2 : Nat.beq 27 b0 = false := beq_false (by omega)
+  simp [clipPrefix, hasPrefix, h2]
+
 /-- every parser after `parseRune` is silent on a buffer of at most four bytes that starts with an 8-bit byte -/
 theorem later_parsers_silent_high (cfg : Cfg) (hk : keysAscii cfg.keys = true) (st : PState) (b0 : Nat) (t : Bytes)
     (hb : 128 ≤ b0) (hl : t.length ≤ 3) (ps : List (PState → Bytes → Verdict))
-    (hps : ∀ p ∈ ps, p = parseXtermMouse cfg ∨ p = parseSgrMouse cfg ∨ p = parseClipboard) :
+    (hps : ∀ p ∈ ps, p = parseXtermMouse cfg ∨ p = parseSgrMouse cfg ∨ p = parseClipboardV cfg.clipFixed) :
     ∀ p ∈ parseFunctionKey cfg.keys :: parseFocus :: ps, Silent (p st (b0 :: t)) := by
   intro p hp
   rcases List.mem_cons.mp hp with e | hp
@@ -187,7 +198,7 @@ theorem later_parsers_silent_high (cfg : Cfg) (hk : keysAscii cfg.keys = true) (
   rcases hps p hp with e | e | e
   · subst e; exact parseXtermMouse_high cfg st b0 t hb hl
   · subst e; exact parseSgrMouse_short cfg st _ (by simp; omega)
-  · subst e; exact Or.inr (parseClipboard_high st b0 t hb hl)
+  · subst e; exact Or.inr (parseClipboardV_high _ st b0 t hb hl)
 
 /-! ### parseRune on a character -/
 
